@@ -9,6 +9,7 @@ import (
 
 	"github.com/gagliardetto/solana-go"
 	"github.com/rpcpool/yellowstone-faithful/compactindexsized"
+	"github.com/rpcpool/yellowstone-faithful/deprecated/compactindex36"
 	"github.com/sourcegraph/jsonrpc2"
 	"google.golang.org/grpc/codes"
 	"google.golang.org/grpc/status"
@@ -76,8 +77,14 @@ func (multi *MultiEpoch) findEpochNumberFromSignature(ctx context.Context, sig s
 			if err != nil {
 				return 0, fmt.Errorf("failed to get epoch %d: %w", epochNumber, err)
 			}
-			if _, err := epoch.FindCidFromSignature(ctx, sig); err == nil {
+			_, err = epoch.FindCidFromSignature(ctx, sig)
+			if err == nil {
 				return epochNumber, nil
+			}
+			if !compactindexsized.IsNotFound(err) && !errors.Is(err, compactindex36.ErrNotFound) {
+				// The sig-exists index says the signature is in this epoch, but the
+				// sig-to-cid lookup failed (e.g. truncated index file): that is not "not found".
+				return 0, fmt.Errorf("failed to look up signature in epoch %d: %w", epochNumber, err)
 			}
 			// Not found in this epoch.
 			return 0, ErrNotFound
